@@ -218,9 +218,18 @@ class Models:
         return isinstance(v, (int, float, bool, SReal, SInt))
 
     # ------------------------------------------------------------------ ordering
+    def unopt(self, ip, v):
+        """Optional value used where a plain value is needed: decide `is None` on the path (None then behaves as None)."""
+        while isinstance(v, SOpt):
+            if ip.path.branch(v.isnone, "value is None"):
+                return None
+            v = v.val
+        return v
+
     def order(self, ip, op, l, r, node=None):
-        if isinstance(l, SOpt) or isinstance(r, SOpt):
-            raise Unsupported("ordering on Optional value")
+        l, r = self.unopt(ip, l), self.unopt(ip, r)
+        if l is None or r is None:
+            ip.raise_exc("TypeError", "ordering with None")
         if self.isnum(l) and self.isnum(r):
             if isinstance(l, (int, float, bool)) and isinstance(r, (int, float, bool)):
                 return {ast.Lt: l < r, ast.LtE: l <= r, ast.Gt: l > r, ast.GtE: l >= r}[type(op)]
@@ -295,6 +304,9 @@ class Models:
         return t
 
     def arith(self, ip, op, l, r, node=None):
+        l, r = self.unopt(ip, l), self.unopt(ip, r)
+        if l is None or r is None:
+            ip.raise_exc("TypeError", "arithmetic with None")
         if isinstance(l, (SArr, SSeq)) or isinstance(r, (SArr, SSeq)):
             return self.array_binary(ip, op, l, r, node)
         if isinstance(l, PList) and isinstance(r, PList) and isinstance(op, ast.Add):
@@ -962,6 +974,9 @@ class Models:
             raise Unsupported("max/min over symbolic-length iterable")
         if "key" in kw:
             raise Unsupported("max/min with key")
+        items = [self.unopt(ip, x) for x in items]
+        if any(x is None for x in items):
+            ip.raise_exc("TypeError", "max/min with None")
         acc = items[0]
         for x in items[1:]:
             if isinstance(acc, (int, float)) and isinstance(x, (int, float)):
